@@ -13,6 +13,9 @@ CR = [
     # tolerant variants: any offset expression is passed on (and must equal the prefix sum)
     (r"components_\[i\]->deserialize\(cstate->components\[i\], reinterpret_cast<const char \*>\(serialization\) \+ ([^;]+)\);", r"comp_deserialize(i, (const char *)(serialization) + \1);", 0),
     (r"components_\[i\]->serialize\(reinterpret_cast<char \*>\(serialization\) \+ ([^;,]+), cstate->components\[i\]\);", r"comp_serialize(i, (char *)(serialization) + \1);", 0),
+    # most general form: whatever address expression is handed to the component (it must equal the prefix-sum offset)
+    (r"components_\[i\]->deserialize\(cstate->components\[i\], ([^;]+)\);", r"comp_deserialize(i, (const char *)(\1));", 0),
+    (r"components_\[i\]->serialize\(([^;]+), cstate->components\[i\]\);", r"comp_serialize(i, (char *)(\1));", 0),
     (r"components_\[i\]->getSerializationLength\(\)", "comp_len(i)", 0),
     (r"components_\[i\]->copyState\(cdest->components\[i\], csrc->components\[i\]\);", "comp_copyState(i);", 0),
 ]
@@ -42,6 +45,7 @@ PD_RULES = [
     (r"std::map<const State \*, unsigned int>::const_iterator it = stateIndexMap_\.find\(st\);", "int it = MAP_FIND(st);", 0),
     (r"it != stateIndexMap_\.end\(\)", "it >= 0", 0), (r"it->second", "(unsigned)it", 0),
     (r"(\w+VertexIndices_)\.push_back\(([^;]+)\);", r"PUSH(\1, \2);", 0),
+    (r"(\w+VertexIndices_)\.empty\(\)", r"(\1_size == 0)", 0), (r"(\w+VertexIndices_)\.back\(\)", r"\1[\1_size - 1]", 0), (r"(\w+VertexIndices_)\.size\(\)", r"\1_size", 0),
     (r"std::sort\((\w+VertexIndices_)\.begin\(\), (\w+VertexIndices_)\.end\(\)\);", r"SORT(\1, \2_size);", 0),
     (r"std::binary_search\((\w+VertexIndices_)\.begin\(\), (\w+VertexIndices_)\.end\(\), index\)", r"BSEARCH(\1, \2_size, index)", 0),
     (r"isStartVertex\(", "pd_isStartVertex(", 0), (r"isGoalVertex\(", "pd_isGoalVertex(", 0),
